@@ -42,10 +42,10 @@ def slice_of(S, big, lo, width):
 def writer_field(nm, e, num, w, base_arg):
     """(field sequence most significant first, its length) appended by the call, positional"""
     if nm == "write_bits":
-        n = num.aff(("arg", 3, "n_bits"))
+        n = num.aff(("arg", 3, "arg3"))
         return [("S", "value", const(0), n)], n
     if nm == "write_unary":
-        v = num.aff(("arg", 2, "value"))
+        v = num.aff(("arg", 2, "arg2"))
         zeros, one = ("Z", v), ("O", const(1))
         return ([zeros, one] if e == "be" else [one, zeros]), v + const(1)
     return None, None
@@ -97,7 +97,7 @@ def run_writer_content(chk, F, fs, rule="W6.content", names=("write_bits", "writ
                 pend = ("S", "P", const(0), pw0)
                 junk = ("X", sl0)
                 entry = {BUF: [junk, pend] if e == "be" else [pend, junk]}
-                S = Seqs(num, store, entry, {("arg", 2, "value"): ("value", 64)})
+                S = Seqs(num, store, entry, {("arg", 2, "arg2"): ("value", 64)})
                 if nm.startswith("flush"):
                     # padding to the word boundary: nothing when nothing is pending
                     if S.ent_eq(sl0, const(w)):
@@ -223,7 +223,7 @@ def run_reader_content(chk, F, fs, rule="R7.content", names=("read_bits", "peek_
                 for i, ev in enumerate(words):
                     sources[("okval", ev[3])] = ("w%d" % i, w)
                 S = Seqs(num, store, entry, sources)
-                n = num.aff(("arg", 2, "n_bits"))
+                n = num.aff(("arg", 2, "arg2"))
                 wsegs = [("S", "w%d" % i, const(0), const(w)) for i in range(len(words))]
                 U = ([bf] + wsegs) if e == "be" else (list(reversed(wsegs)) + [bf])
                 LU = b0 + const(w * len(words))
@@ -743,7 +743,7 @@ def run_bitreader_content(chk, F, fs, rule="R7.content", widths=None):
             num.ctx_cons = p.state["cons"]
             num.ctx_mem = p.mem
             S = Seqs(num, store, {}, {})
-            n = num.aff(("arg", 2, "n_bits"))
+            n = num.aff(("arg", 2, "arg2"))
             q = num.aff(("binop", "Div", BI, ("const", 64, "u64")))
             r = num.aff(("binop", "Rem", BI, ("const", 64, "u64")))
             try:
@@ -809,7 +809,7 @@ def run_seek_content(chk, F, fs, rule="S.content", widths=None):
                 nonlocal ok, why
                 if ok:
                     ok, why = False, msg
-            P = ("arg", 2, "bit_index")
+            P = ("arg", 2, "arg2")
             for p in paths:
                 if p.end[0] != "return" or re_.ok_value(p) is None:
                     continue
